@@ -119,6 +119,22 @@ func (m *Machine) builtin(b *ssa.Builtin, args []Val, cc *ssa.CallCommon) Val {
 			}
 		}
 		return nil
+	case "clear":
+		switch x := args[0].(type) {
+		case Slice:
+			et := cc.Args[0].Type().Underlying().(*types.Slice).Elem()
+			es := sizeof(et)
+			for i := 0; i < x.n; i++ {
+				m.Store(Ptr{x.p.obj, x.p.off + i*es}, et, m.zeroVal(et))
+			}
+			return nil
+		case *MapObj:
+			if x != nil && len(x.entries) > 0 {
+				m.touchMap(x)
+				x.entries = nil
+			}
+			return nil
+		}
 	case "recover":
 		// panics end the path (they are reported, never recovered): a deferred recover() only ever sees nil
 		return Iface{}
